@@ -347,22 +347,23 @@ def _render_merged_edges(
                 expansion_state,
                 output_to_producer,
             )
-            actual_target = _resolve_data_target(
+            actual_targets = _resolve_data_targets(
                 target,
                 value_name,
                 flat_graph,
                 expansion_state,
                 param_to_consumers,
             )
-            if actual_source is None or actual_target is None:
+            if actual_source is None:
                 continue
-            if actual_source == actual_target:
-                continue
-            edge_key = (_sanitize_id(actual_source), _sanitize_id(actual_target), value_name)
-            if edge_key in seen_edges:
-                continue
-            seen_edges.add(edge_key)
-            lines.append(_format_edge(actual_source, actual_target, None))
+            for actual_target in actual_targets:
+                if actual_source == actual_target:
+                    continue
+                edge_key = (_sanitize_id(actual_source), _sanitize_id(actual_target), value_name)
+                if edge_key in seen_edges:
+                    continue
+                seen_edges.add(edge_key)
+                lines.append(_format_edge(actual_source, actual_target, None))
 
     return lines
 
@@ -522,28 +523,29 @@ def _resolve_data_source(
     return actual_source
 
 
-def _resolve_data_target(
+def _resolve_data_targets(
     target: str,
     value_name: str,
     flat_graph: nx.DiGraph,
     expansion_state: dict[str, bool],
     param_to_consumers: dict[str, list[str]],
-) -> str | None:
-    """Resolve actual target for a data edge, entering expanded containers."""
-    actual_target = target
+) -> list[str]:
+    """Resolve actual targets for a data edge, entering expanded containers.
+
+    Every consumer of the value inside an expanded container gets the edge.
+    """
+    actual_targets = [target]
     target_attrs = flat_graph.nodes.get(target, {})
     if target_attrs.get("node_type") == "GRAPH" and expansion_state.get(target, False) and value_name:
         consumers = param_to_consumers.get(value_name, [])
         internal = [c for c in consumers if c != target and is_descendant_of(c, target, flat_graph)]
         if internal:
-            actual_target = internal[0]
+            actual_targets = internal
         else:
             entry = find_container_entrypoints(target, flat_graph, expansion_state)
             if entry:
-                actual_target = entry[0]
-    if not is_node_visible(actual_target, flat_graph, expansion_state):
-        return None
-    return actual_target
+                actual_targets = [entry[0]]
+    return [t for t in actual_targets if is_node_visible(t, flat_graph, expansion_state)]
 
 
 def _get_control_label(
